@@ -4,6 +4,7 @@ import (
 	"encoding/json"
 	"flag"
 	"fmt"
+	"golang.org/x/tools/go/ssa"
 	"os"
 	"os/exec"
 	"path/filepath"
@@ -432,6 +433,7 @@ func checkCmd(args []string) int {
 	var reports []harnessReport
 	var samples []any
 	functions := map[string]bool{}
+	blocksSeen := map[*ssa.BasicBlock]bool{}
 	intrinsics := map[string]bool{}
 	assumptions := map[string]bool{}
 	var tot interp.Stats
@@ -468,6 +470,9 @@ func checkCmd(args []string) int {
 		solverS += res.SolverTime.Seconds()
 		for k := range res.Functions {
 			functions[k] = true
+		}
+		for b := range res.Blocks {
+			blocksSeen[b] = true
 		}
 		for k := range res.Intrinsics {
 			intrinsics[k] = true
@@ -703,6 +708,31 @@ func checkCmd(args []string) int {
 	for k := range assumptions {
 		asList = append(asList, k)
 	}
+	// basic-block coverage of the library code (what the harnesses of this
+	// property actually executed), for gap analysis
+	isTarget := func(file string) bool {
+		rel, err := filepath.Rel(repoDir, file)
+		if err != nil || strings.HasPrefix(rel, "..") {
+			return false
+		}
+		return !strings.HasPrefix(filepath.Base(rel), "zz_verif") && !strings.HasPrefix(rel, "zz_verif")
+	}
+	cov := m.BlockCoverage(blocksSeen, isTarget)
+	blocksTotal, blocksHit := 0, 0
+	var covLines []string
+	for _, b := range cov {
+		blocksTotal++
+		mark := "-"
+		if b.Seen {
+			blocksHit++
+			mark = "+"
+		}
+		covLines = append(covLines, fmt.Sprintf("%s %s#%d %s", mark, b.Func, b.Index, b.Pos))
+	}
+	if dir := os.Getenv("VERIF_BLOCKCOV"); dir != "" {
+		os.MkdirAll(dir, 0o755)
+		os.WriteFile(filepath.Join(dir, prop+"."+[]string{"quick", "thorough"}[tier]+".txt"), []byte(strings.Join(covLines, "\n")+"\n"), 0o644)
+	}
 	sort.Strings(fnList)
 	sort.Strings(inList)
 	sort.Strings(asList)
@@ -710,7 +740,7 @@ func checkCmd(args []string) int {
 	asList = append(asList,
 		"go/ssa lowering of /repo's current working tree and the forked x/tools interpreter's instruction semantics",
 		"intrinsic models of the listed stdlib functions (concrete arguments call the real function)",
-		"z3 4.8.12 verdicts (unknown/timeouts are reported as inconclusive, never as success)",
+		"cvc5 1.0 verdicts, z3 4.8.12 when cvc5 answers unknown (unknown from both or a timeout is reported as inconclusive, never as success)",
 		"counterexamples are only reported after they reproduce against the natively compiled library")
 	var decTotal int64
 	decMap := map[string]int64{}
@@ -744,11 +774,13 @@ func checkCmd(args []string) int {
 			"repo_unit_tests_not_encodable":           stNotEnc,
 			"native_replays_of_counterexamples":       replays,
 			"native_replays_of_sampled_passing_paths": passReplays,
-			"samples":               samples,
-			"exhaustive":            false,
-			"technique":             "bounded symbolic execution of go/ssa with SMT (z3) path feasibility and assertion discharge",
-			"harnesses":             reports,
-			"functions_encoded":     fnList,
+			"samples":              samples,
+			"exhaustive":           false,
+			"technique":            "bounded symbolic execution of go/ssa with SMT (cvc5, z3 fallback) path feasibility and assertion discharge",
+			"harnesses":            reports,
+			"functions_encoded":    fnList,
+			"library_basic_blocks": blocksTotal,
+			"library_basic_blocks_executed_by_this_check": blocksHit,
 			"intrinsics_used":       inList,
 			"bounds":                spec.Bounds[tier],
 			"outside_the_claim":     spec.Outside,
